@@ -1,4 +1,46 @@
-(** C03 — property theorems (statements only; proofs by [exact]). *)
+(** C03 — property theorems (statements only; proofs by [exact]).
+    [Rep t xs]: the treap [t] denotes the sequence [xs] (Proofs.v); [lawful]: the item interface. *)
 From Coq Require Import ZArith List Bool.
-From RlibV Require Import C03.Model.
+From RlibV Require Import C03.Model C03.Proofs C03.ProofsInst.
+Import ListNotations.
 Open Scope Z_scope.
+
+(** merge concatenates: for every pair of priorities at every level (ties included) *)
+Theorem c03_merge_rep : forall (T M V A : Type) (update : T -> option T -> option T -> T) (push : T -> option T -> option T -> T * option T * option T) (size : T -> Z) (modify : M -> T -> T) (elem : T -> V) (agg : T -> A) (act : M -> V -> V) (aggf : list V -> A) (Pending : T -> list M -> Prop), lawful update push size modify elem agg act aggf Pending -> forall (a b : tree) (xs ys : list V), Rep size elem agg act aggf Pending a xs -> Rep size elem agg act aggf Pending b ys -> Rep size elem agg act aggf Pending (merge update push a None b None) (xs ++ ys).
+Proof. exact @merge_rep. Qed.
+
+(** split_at k yields the first k elements and the rest, for every k (negative as 0); k >= len leaves everything on the left *)
+Theorem c03_split_at_rep : forall (T M V A : Type) (update : T -> option T -> option T -> T) (push : T -> option T -> option T -> T * option T * option T) (size : T -> Z) (modify : M -> T -> T) (elem : T -> V) (agg : T -> A) (act : M -> V -> V) (aggf : list V -> A) (Pending : T -> list M -> Prop), lawful update push size modify elem agg act aggf Pending -> forall (t : tree) (k : Z) (xs : list V) (a b : tree), Rep size elem agg act aggf Pending t xs -> split_at update push size t None k = (a, b) -> Rep size elem agg act aggf Pending a (firstn (Z.to_nat k) xs) /\ Rep size elem agg act aggf Pending b (skipn (Z.to_nat k) xs) /\ (len xs <= k -> Rep size elem agg act aggf Pending a xs /\ b = E).
+Proof. exact @split_at_rep. Qed.
+
+(** split_by with a predicate on elements that is prefix-monotone on the sequence yields take_while / drop_while *)
+Theorem c03_split_by_rep : forall (T M V A : Type) (update : T -> option T -> option T -> T) (push : T -> option T -> option T -> T * option T * option T) (size : T -> Z) (modify : M -> T -> T) (elem : T -> V) (agg : T -> A) (act : M -> V -> V) (aggf : list V -> A) (Pending : T -> list M -> Prop), lawful update push size modify elem agg act aggf Pending -> forall (q : V -> bool) (t : tree) (xs : list V) (a b : tree), Rep size elem agg act aggf Pending t xs -> monotone_on q xs = true -> split_by update push (fun x => q (elem x)) t None = (a, b) -> Rep size elem agg act aggf Pending a (take_while q xs) /\ Rep size elem agg act aggf Pending b (drop_while q xs).
+Proof. exact @split_by_rep. Qed.
+
+(** insert_at k x inserts the element of a fresh item before position k (k >= len appends) *)
+Theorem c03_insert_at : forall (T M V A : Type) (update : T -> option T -> option T -> T) (push : T -> option T -> option T -> T * option T * option T) (size : T -> Z) (modify : M -> T -> T) (elem : T -> V) (agg : T -> A) (act : M -> V -> V) (aggf : list V -> A) (Pending : T -> list M -> Prop), lawful update push size modify elem agg act aggf Pending -> forall (t : tree) (k : Z) (x : T) (p : Z) (xs : list V), Rep size elem agg act aggf Pending t xs -> Fresh size elem agg aggf Pending x -> Rep size elem agg act aggf Pending (insert_at update push size t k x p) (firstn (Z.to_nat k) xs ++ elem x :: skipn (Z.to_nat k) xs).
+Proof. exact @insert_at_rep. Qed.
+
+(** remove_at k removes and returns the k-th element; out of range it returns nothing (the unwrap panics) and the sequence is unchanged *)
+Theorem c03_remove_at : forall (T M V A : Type) (update : T -> option T -> option T -> T) (push : T -> option T -> option T -> T * option T * option T) (size : T -> Z) (modify : M -> T -> T) (elem : T -> V) (agg : T -> A) (act : M -> V -> V) (aggf : list V -> A) (Pending : T -> list M -> Prop), lawful update push size modify elem agg act aggf Pending -> forall (t : tree) (k : Z) (xs : list V) (t' : tree) (res : option T), Rep size elem agg act aggf Pending t xs -> remove_at update push size t k = (t', res) -> Rep size elem agg act aggf Pending t' (firstn (Z.to_nat k) xs ++ skipn (S (Z.to_nat k)) xs) /\ option_map elem res = nth_error xs (Z.to_nat k).
+Proof. exact @remove_at_rep. Qed.
+
+(** first/last/collect keep the sequence (they push lazily) and return head / last / all elements; size = length; the root aggregate is the fold of the whole sequence *)
+Theorem c03_first_last_collect_size : forall (T M V A : Type) (update : T -> option T -> option T -> T) (push : T -> option T -> option T -> T * option T * option T) (size : T -> Z) (modify : M -> T -> T) (elem : T -> V) (agg : T -> A) (act : M -> V -> V) (aggf : list V -> A) (Pending : T -> list M -> Prop), lawful update push size modify elem agg act aggf Pending -> forall (t : tree) (xs : list V), Rep size elem agg act aggf Pending t xs -> (forall t' res, first push t None = (t', res) -> Rep size elem agg act aggf Pending t' xs /\ option_map elem res = hd_error xs) /\ (forall t' res, last push t None = (t', res) -> Rep size elem agg act aggf Pending t' xs /\ option_map elem res = last_error xs) /\ (forall t' ys, collect push t None = (t', ys) -> Rep size elem agg act aggf Pending t' xs /\ map elem ys = xs) /\ tsize size t = len xs /\ option_map agg (item t) = match xs with [] => None | _ => Some (aggf xs) end.
+Proof. exact @first_last_collect_size. Qed.
+
+(** a modification attached to the root acts on exactly the elements of that treap, once *)
+Theorem c03_modify_root : forall (T M V A : Type) (update : T -> option T -> option T -> T) (push : T -> option T -> option T -> T * option T * option T) (size : T -> Z) (modify : M -> T -> T) (elem : T -> V) (agg : T -> A) (act : M -> V -> V) (aggf : list V -> A) (Pending : T -> list M -> Prop), lawful update push size modify elem agg act aggf Pending -> forall (m : M) (t : tree) (xs : list V), Rep size elem agg act aggf Pending t xs -> Rep size elem agg act aggf Pending (modify_root modify m t) (map (act m) xs).
+Proof. exact @modify_root_rep. Qed.
+
+(** every history of the multi-treap machine, for every priority stream, produces the outputs of the list-of-lists specification and ends in treaps that denote the specification's lists *)
+Theorem c03_history : forall (T M V A : Type) (update : T -> option T -> option T -> T) (push : T -> option T -> option T -> T * option T * option T) (size : T -> Z) (modify : M -> T -> T) (elem : T -> V) (agg : T -> A) (act : M -> V -> V) (aggf : list V -> A) (Pending : T -> list M -> Prop), lawful update push size modify elem agg act aggf Pending -> forall (ps : list Z) (ops : list op) (sst : list (list V)) (outs : list output), Forall (op_fresh size elem agg aggf Pending) ops -> srun elem act aggf [] ops = Some (sst, outs) -> run_outputs update push size modify elem agg ps ops = outs /\ Forall2 (Rep size elem agg act aggf Pending) (run_final update push size modify elem agg ps ops) sst.
+Proof. exact @history. Qed.
+
+(** the ItemSized item (lazy add, sum, size) over Z satisfies the interface *)
+Theorem c03_isz_lawful : lawful isz_update isz_push isize isz_modify ix ism Z.add zsum isz_pending.
+Proof. exact isz_lawful. Qed.
+
+(** the assign-or-add item (non-commuting modifications) satisfies the interface *)
+Theorem c03_iaa_lawful : lawful iaa_update iaa_push asize iaa_modify ax asm amod_act zsum iaa_pending.
+Proof. exact iaa_lawful. Qed.
